@@ -121,6 +121,9 @@ def run_case(ctx, rng, idx):
             ctx.check("C08:components", not isinstance(got, _Raised) and got == exp, f"C08:{name}:1500-node-block", lambda: {"query": name, "got": repr(got)[:200], "expected": exp})
         ctx.distinct_add(("block", m_))
         return
+    if idx == 7 or (ctx.tier == "thorough" and idx % 5000 == 19):
+        many_nodes_case(ctx, rng, idx)
+        return
     if idx in (2, 5) or (ctx.tier == "thorough" and idx % 500 == 13):
         from ..gen import core_periphery
 
@@ -142,11 +145,28 @@ def run_case(ctx, rng, idx):
     else:
         kind = "H"
         h, uni = gen_hypergraph(rng, allow_tuple=True)
+    tw = None
+    if kind == "H" and idx % 3 == 0:
+        from ..mutate import twin
+
+        tw = twin(rng, h)  # built BEFORE h is measured; no library call changes anything from here to the last query on it
     evaluate(ctx, rng, idx, h, kind, "")
+    if tw is not None:
+        # two live objects over the same labels, equal in every count and degree, queried in turn with no edit in between
+        ctx.event("re-evaluated-on-a-live-twin(same labels, degrees and sizes; other hyperedges)")
+        evaluate(ctx, rng, idx, tw, kind, ":live-twin")
+        ctx.event("re-evaluated-after-the-twin-was-queried")
+        evaluate(ctx, rng, idx, h, kind, ":after-its-twin-was-queried")
+        del tw
+    if kind == "H" and idx % 10 == 4:
+        short_lived_objects(ctx, rng, h)
     # second evaluation on the SAME object after an in-place edit that keeps the node and hyperedge counts
     if kind == "H":
-        from ..mutate import same_count_edit
+        from ..mutate import same_count_edit, degree_preserving_swap
 
+        if rng.random() < 0.4 and degree_preserving_swap(rng, h):
+            ctx.event("re-evaluated-after-a-degree-preserving-double-swap")
+            evaluate(ctx, rng, idx, h, kind, ":after-double-swap")
         if same_count_edit(rng, h):
             ctx.event("re-evaluated-after-in-place-edit")
             evaluate(ctx, rng, idx, h, kind, ":after-in-place-edit")
@@ -170,6 +190,93 @@ def run_case(ctx, rng, idx):
             lab, g2 = second_order(rng, h)
             ctx.event("re-evaluated-on-" + lab)
             evaluate(ctx, rng, idx, g2, kind, ":" + lab)
+
+
+def many_nodes_case(ctx, rng, idx):
+    """Thousands of nodes, NON-uniform (a chain of triples bridged by a few pairs), every filter form: the component and degree
+    queries against union-find over the selected hyperedges.  (An implementation may switch algorithm above some node count;
+    the quick tier sits at 5200 nodes, the thorough tier walks 4100 ... 66000.)"""
+    import hypergraphx as hgx
+    from hypergraphx.utils import cc
+    from hypergraphx.measures import degree as dm
+
+    n = 5200 if idx == 7 else [4100, 8200, 16500, 33000, 66000][(idx // 5000) % 5]
+    ctx.event(f"many-nodes:{n}")
+    edges = [(i, i + 1, i + 2) for i in range(0, n - 2, 3)] + [(i + 2, i + 3) for i in range(0, n - 3, 6)] + [(0, n - 1), (5, n - 2), (n, n + 1), (n + 2, n + 3, n + 4, n + 5)]
+    h = hgx.Hypergraph(edges)
+    h.add_node(n + 10)
+    nodes = list(h.get_nodes())
+    ctx.check("C08:degree", len(nodes) >= n, "C08:oracle-self-check:many-nodes", lambda: {"nodes": len(nodes)})
+    probes = rng.sample(nodes, 6) + [0, n + 10]
+    for f in (None, ("size", 2), ("size", 3), ("order", 1), ("order", 2), ("size", 4), ("order", 0)):
+        kw = {} if f is None else {f[0]: f[1]}
+        size = None if f is None else (f[1] if f[0] == "size" else f[1] + 1)
+        sel = [e for e in edges if size is None or len(e) == size]
+        ref = components(nodes, sel)
+        refset = {frozenset(c) for c in ref}
+        comp_of = {x: frozenset(c) for c in ref for x in c}
+        big = max(len(c) for c in ref)
+
+        def wit(extra=None):
+            return {"nodes": len(nodes), "filter": kw, "extra": repr(extra)[:300]}
+
+        for name, fn in (("method", h.connected_components), ("function", lambda **k: cc.connected_components(h, **k))):
+            got = call(fn, **kw)
+            ok = not isinstance(got, _Raised) and len(got) == len(refset) and {frozenset(c) for c in got} == refset
+            ctx.check("C08:components", ok, f"C08:connected_components({name}):many-nodes" + (":filtered" if f else ""), lambda: wit((len(got) if not isinstance(got, _Raised) else got, len(ref))))
+        for name, got, exp in (("num_connected_components", call(h.num_connected_components, **kw), len(ref)),
+                               ("num_connected_components(function)", call(cc.num_connected_components, h, **kw), len(ref)),
+                               ("is_connected", call(h.is_connected, **kw), len(ref) == 1),
+                               ("largest_component_size", call(h.largest_component_size, **kw), big),
+                               ("largest_component", call(lambda: len(h.largest_component(**kw))), big),
+                               ("isolated_nodes", call(lambda: Counter(h.isolated_nodes(**kw))), Counter(x for x in nodes if len(comp_of[x]) == 1))):
+            ctx.check("C08:components", not isinstance(got, _Raised) and got == exp, f"C08:{name}:many-nodes" + (":filtered" if f else ""), lambda: wit((name, repr(got)[:100], repr(exp)[:100])))
+        deg = {x: sum(1 for e in sel if x in e) for x in probes}
+        for x in probes:
+            got = call(h.node_connected_component, x, **kw)
+            ctx.check("C08:components", not isinstance(got, _Raised) and frozenset(got) == comp_of[x], f"C08:node_connected_component:many-nodes" + (":filtered" if f else ""), lambda: wit((x, len(got) if not isinstance(got, _Raised) else got)))
+            got = call(h.is_isolated, x, **kw)
+            ctx.check("C08:components", got == (len(comp_of[x]) == 1), f"C08:is_isolated:many-nodes" + (":filtered" if f else ""), lambda: wit((x, got)))
+            got = call(dm.degree, h, x, **kw)
+            ctx.check("C08:degree", got == deg[x], f"C08:H:degree:many-nodes" + (":filtered" if f else ""), lambda: wit((x, got, deg[x])))
+        seq = call(dm.degree_sequence, h, **kw)
+        ctx.check("C08:degree", not isinstance(seq, _Raised) and all(seq.get(x) == deg[x] for x in probes) and sum(seq.values()) == sum(len(e) for e in sel),
+                  "C08:H:degree_sequence:many-nodes" + (":filtered" if f else ""), lambda: wit())
+    ctx.distinct_add(("many-nodes", n))
+
+
+def short_lived_objects(ctx, rng, h):
+    """Objects that live for one query and are dropped: CPython hands the next object of the same type the address of the one
+    just freed, so anything remembered per id(object) answers for a dead hypergraph.  Alternates h's content with its twin's
+    (same node list, same number of insertions and hyperedges), each time on a brand-new object, each judged by itself."""
+    from hypergraphx.measures import degree as dm
+    from ..mutate import rebuilt, twin
+
+    t = twin(rng, h)
+    if t is None:
+        return
+    ctx.event("short-lived-objects-alternating-two-contents")
+    contents = []
+    for src in (h, t):
+        nodes = list(src.get_nodes())
+        edges = list(src.get_edges())
+        contents.append((nodes, edges))
+    del t
+    sizes = sorted({len(e) for e in contents[0][1]})
+    for rnd in range(6):
+        nodes, edges = contents[rnd % 2]
+        g = type(h)(weighted=False)
+        g.add_nodes(list(nodes))
+        g.add_edges(list(edges))
+        for s_ in [None] + sizes[:2]:
+            sel = [e for e in edges if s_ is None or len(e) == s_]
+            deg = {n: sum(1 for e in sel if n in e) for n in nodes}
+            kw = {} if s_ is None else {"order": s_ - 1}
+            got = call(dm.degree_sequence, g, **kw)
+            ctx.check("C08:degree", got == deg, "C08:H:degree_sequence:short-lived-object", lambda: {"round": rnd, "filter": kw, "edges": repr(edges)[:300], "got": repr(got)[:300], "expected": repr(deg)[:300]})
+            got = call(dm.degree_distribution, g, **kw)
+            ctx.check("C08:degree", got == dict(Counter(deg.values())), "C08:H:degree_distribution:short-lived-object", lambda: {"round": rnd, "filter": kw, "edges": repr(edges)[:300], "got": repr(got)[:300]})
+        del g
 
 
 def evaluate(ctx, rng, idx, h, kind, phase, sample=None):
